@@ -335,8 +335,10 @@ def run(ctx):
         mx = {2: 7, 3: 5, 4: 4, 5: 3}[n]
         # unlabelled units (legal with the default, absolute, categorical component) in a quarter of the label-free cases
         p_none = rng.choice([0.3, 0.6]) if (labels is None and rng.random() < 0.25) else 0.0
-        cspec = cases.gen_continuum(rng, n_annot=n, max_units=rng.randint(1, mx), labels=labels or cases.LABELS_SMALL,
+        odd = labels is None and rng.random() < 0.3
+        cspec = cases.gen_continuum(rng, n_annot=n, max_units=rng.randint(1, mx), labels=labels or (cases.LABELS_ODD if odd else cases.LABELS_SMALL),
                                     min_total=2, p_none=p_none)
+        ctx.observe("odd_labels(empty string, '0', ' ', 'None')", odd)
         ctx.observe("unlabelled_units", p_none > 0)
         src = rng.choice(["best", "soft", "hand", "hand", "hand"])
         case = {"type": "disorder", "continuum": cspec, "dissim": dspec, "source": src}
@@ -359,7 +361,7 @@ def run(ctx):
         if ctx.time_left() < -120:
             break
         dspec = rng.choice(dspecs)
-        labels = cases.dissim_labels(dspec) or cases.LABELS_SMALL
+        labels = cases.dissim_labels(dspec) or (cases.LABELS_ODD if i % 4 == 1 else cases.LABELS_SMALL)
         agreeing = i % 3 == 0
         if agreeing:
             cspec = agreeing_continuum(rng, labels)
